@@ -24,4 +24,6 @@ NoCuts == {}
 NoFail == {{}}
 SomeFail == {{}, {1}, {2}, {1, 2}, {1, 3}}
 FewFail == {{}, {1}, {2}}
+NoSwap == {{}}
+FewSwap == {{}, {1}, {2}}
 ====
